@@ -307,7 +307,13 @@ func par2Cycle(r *Run, o cycleOpts) {
 		kinds = append(kinds, "late-failure")
 	} else if o.hostileRecovery && t.Bool(1, 2, "hostile-recovery") {
 		hostile = w.hostileRecovery(r)
+	} else if prop == "C03" && t.Bool(1, 6, "damaged-recovery-file") {
+		// plain damage to a recovery file (no wrong-but-valid content):
+		// Verify may refuse such a set, but a result it gives must still
+		// be complete
+		hostile = w.hostileRecoveryKind(r, []string{"flip-in-recovery", "truncate-recovery", "length-field-grows", "length-field-grows"}[t.Draw(4, "damage-kind")])
 	}
+	plainDamage := map[string]bool{"": true, "none": true, "flip-in-recovery": true, "truncate-recovery": true, "empty-recovery": true, "garbage-named-like-volume": true, "length-field-grows": true}
 	tr := w.TruthPar2()
 	premise := premiseRepair2(tr)
 	if len(tr.IntactExps) > 0 && nonContiguous(tr.IntactExps) {
@@ -336,7 +342,7 @@ func par2Cycle(r *Run, o cycleOpts) {
 	v := r.Verify2(w, index, gv, nil, SchedSpec{})
 	r.noPanic(v)
 	if prop == "C03" {
-		r.oracleVerify2(w, v, tr, hostile == "", true)
+		r.oracleVerify2(w, v, tr, plainDamage[hostile], true)
 		if v.Err != nil && hostile == "" {
 			r.Violate("verify-error", "Verify failed although index and recovery files are undamaged: %v", v.Err)
 		}
@@ -380,7 +386,7 @@ func par2Cycle(r *Run, o cycleOpts) {
 		v2 := r.Verify2(w, index, gv, nil, SchedSpec{})
 		r.noPanic(v2)
 		if prop == "C03" {
-			r.oracleVerify2(w, v2, tr2, hostile == "", true)
+			r.oracleVerify2(w, v2, tr2, plainDamage[hostile], true)
 		}
 		if prop == "C02" {
 			r.oracleWrites(w, v2, "verify")
